@@ -47,7 +47,10 @@ PROPOSALS = ["ordinary", "ordinary", "ordinary", "ordinary", "tail", "huge_one",
 def make_plan(seed: int, tier: str) -> dict:
     rng = SimRng(seed)
     st = rng.stream("plan")
-    cfg = stepsim.gen_world_cfg(rng.stream("world"), allow_mixture=False)
+    # the mixture model is included: its responsibilities depend on the sampled block, so the property's own words
+    # ("regularity of everything that depends on that block") require them to be re-evaluated in the proposed state;
+    # only the RefMath target check (d) is skipped for it (no independent documentation of the weighted rule)
+    cfg = stepsim.gen_world_cfg(rng.stream("world"), allow_mixture=True)
     n_steps = st.randint(3, 10 if tier == "quick" else 20)
     steps = []
     it = 1
